@@ -44,7 +44,7 @@ func specBCDVersion(b uint8) uint8 { return (b%16)*10 + b/16 }
 //@ func checksum
 //@ props C20 C05 C06 C07
 //@ assigns nothing
-//@ ensures [C20.checksum] result == -bsum8(data, 0, len(data))
+//@ ensures [C06+C20.checksum] result == -bsum8(data, 0, len(data))
 //@ ensures [C20.checksum-zero] result+bsum8(data, 0, len(data)) == 0
 //@ invariant 0 [C20.checksum-inv] c == bsum8(data, 0, rangeindex+1)
 
@@ -94,7 +94,7 @@ func specPacked6Char(b []byte, k int) uint8 {
 //@ assigns nothing
 //@ requires [str.c] 0 <= c && c <= 31
 //@ ensures [C20+C07.latin1-accept] (result2 == nil) == ((c == 0 || len(b) >= 2) && len(b) >= c)
-//@ ensures [C07.latin1-empty] c == 0 ==> result2 == nil && len(result0) == 0 && result1 == 0 // an ID string of length zero is legal in every encoding (43.15)
+//@ ensures [C07+C20.latin1-empty] c == 0 ==> result2 == nil && len(result0) == 0 && result1 == 0 // an ID string of length zero is legal in every encoding (43.15)
 //@ ensures [C20+C07.latin1-consumed] result2 == nil ==> result1 == c && len(result0) == c
 //@ ensures [C20+C07.latin1-bytes] result2 == nil ==> forall(qk, 0, c, result0[qk] == b[qk])
 
@@ -122,19 +122,19 @@ func specPacked6Char(b []byte, k int) uint8 {
 //@ props C20 C15
 //@ inline
 //@ assigns nothing
-//@ ensures [C20.analog-unsigned] int(result) == int(r)
+//@ ensures [C15+C20.analog-unsigned] int(result) == int(r)
 
 //@ func parseAnalogDataFormatOnesComplement
 //@ props C20 C15
 //@ inline
 //@ assigns nothing
-//@ ensures [C20.analog-ones] int(result) == ite(r < 0x80, int(r), -int(^r))
+//@ ensures [C15+C20.analog-ones] int(result) == ite(r < 0x80, int(r), -int(^r))
 
 //@ func parseAnalogDataFormatTwosComplement
 //@ props C20 C15
 //@ inline
 //@ assigns nothing
-//@ ensures [C20.analog-twos] int(result) == ite(r < 0x80, int(r), int(r)-256)
+//@ ensures [C15+C20.analog-twos] int(result) == ite(r < 0x80, int(r), int(r)-256)
 
 // ---- entity_instance.go (IPMI v2.0 section 39.1)
 
